@@ -208,7 +208,9 @@ def run_c(spec, acc):
 
     from .c16 import Writer, encode_call
 
-    m = opx.Machine(njob=2, targets_menu=((),))
+    m_instant = opx.Machine(njob=2, targets_menu=((),))
+    # reports take time: the executor is suspended while it reports the result of a step
+    m_gated = opx.Machine(njob=2, targets_menu=((),), reporter="gate")
     requests = [
         ("define_step", opx.MENU_STEPS[0][2:], lambda raw: any(s[0] == "step:s1" for s in raw["step"])),
         ("declare_static", ([], ["a", "d/e"], []), lambda raw: any(f[0] == "file:d/e" for f in raw["file"])),
@@ -218,7 +220,11 @@ def run_c(spec, acc):
     for name, args, applied in requests:
         # EOF after k fragments of the request stream were delivered; k = all means EOF after the full request
         for eof_point in ("right_after_request", "after_lock_released", "with_trailing_garbage"):
-            for release_first in (False, True):
+            for release_first, exit_first in ((False, False), (True, False), (False, True)):
+                if exit_first and name == "hold_dispatch":
+                    # a hold of a step that has completed ends with the step: nothing to observe
+                    continue
+                m = m_gated if exit_first else m_instant
                 world = m.new_world()
                 sim = m.start_session(world, ())
                 try:
@@ -236,6 +242,32 @@ def run_c(spec, acc):
 
                     holder = sim.loop.create_task(hold_db())
                     sim.loop.run_ready()
+                    if exit_first:
+                        # the step sent its request and died at once; the director notices the
+                        # exit before it reads the socket. A second holder takes the database
+                        # over while the outputs are hashed, so that the completion of the step
+                        # queues on the database first and the request behind it: the request is
+                        # handled after the step was marked completed, while its result is
+                        # being reported and its job is not retired yet
+                        sim.fire_payload(m.proc_gate(sim, "./plan.py"), ("exit", "ok", world))
+                        sim.loop.run_ready()
+                        release2 = sim.loop.create_future()
+
+                        async def hold_db2(sim=sim, release2=release2):
+                            async with sim.db:
+                                await release2
+
+                        holder2 = sim.loop.create_task(hold_db2())
+                        sim.loop.run_ready()
+                        release.set_result(None)
+                        for _ in range(50):
+                            sim.loop.run_ready()
+                            auto = [g for g in sim.enabled() if getattr(g, "kind", None) == "hash"]
+                            if not auto:
+                                break
+                            sim.fire(auto[0])
+                        release = release2
+                        del holder2
                     data = encode_call(1, name, job_i, *args)
                     reader.feed_data(data)
                     sim.loop.run_ready()
@@ -263,9 +295,10 @@ def run_c(spec, acc):
                     raw = m.raw(world, sim)
                     acc.evaluations += 1
                     acc.transitions += 4
-                    acc.nontrivial.add(h8([name, eof_point, release_first]))
+                    acc.nontrivial.add(h8([name, eof_point, release_first, exit_first]))
                     acc.states.add(h8([raw]))
-                    what = {"request": name, "eof": eof_point, "peer_write_fails": release_first}
+                    what = {"request": name, "eof": eof_point, "peer_write_fails": release_first,
+                            "step_exited_before_the_request_was_read": exit_first}
                     if not applied(raw):
                         acc.violation(f"C15|disconnect-lost-request|{name}|{eof_point}", what, None)
                     if not serve.done():
